@@ -88,11 +88,11 @@ func algID(o []int) []byte { return seq(oid(o...), []byte{0x05, 0x00}) }
 // ---------------------------------------------------------------------------------- PKI
 
 type pki struct {
-	caKey, key     *rsa.PrivateKey
-	ca, leaf, tsa  *x509.Certificate
-	crl            []byte
+	caKey, key      *rsa.PrivateKey
+	ca, leaf, tsa   *x509.Certificate
+	crl             []byte
 	confDir, crlURL string
-	srv            *http.Server
+	srv             *http.Server
 }
 
 func newPKI(confDir string) *pki {
